@@ -28,7 +28,7 @@ def plan(tier):
 
 
 def ncases(tier):
-    return 400 if tier == "quick" else 6000
+    return 1200 if tier == "quick" else 6000
 
 
 def gen_case(rng, i):
